@@ -7,7 +7,7 @@ import numpy as np
 from hypothesis import strategies as st
 
 from .. import gen
-from ..harness import Sub, Violation, Inconclusive, crash_is_violation, run_world
+from ..harness import Sub, Violation, Inconclusive, crash_is_violation, run_world, interpreted_kernels
 from ..oracles import bspl, advect
 
 PROPERTY = "C10"
@@ -156,6 +156,15 @@ def predicate(case):
                 raise Violation("C10:%s:formula" % path,
                                 "step(f, vIdx=%d, rIdx=%d): max |got-ref| = %.3e > tol %.3e (r=%r v=%r dt=%r iota=%r, "
                                 "displacement %.3f cells)" % (vi, ri, err, tol, r, v, case["dt"], case["iota"], zc))
+            # in place on whatever array is handed over (interpreted kernels only): a slice of a larger block
+            if interpreted_kernels():
+                blk = np.full(f0.shape + (2,), np.nan)
+                blk[..., 1] = f0
+                with crash_is_violation("C10:step", "FluxSurfaceAdvection.step (f given as a view)"):
+                    adv.step(blk[..., 1], vi, ri)
+                if not (np.abs(blk[..., 1] - got) <= 1e-12 * scale).all() or not np.isnan(blk[..., 0]).all():
+                    raise Violation("C10:%s:view" % path, "step on a slice of a larger block: max |f_view - f_contiguous| = %.3e"
+                                    % np.nanmax(np.abs(blk[..., 1] - got)))
             # constants preserved
             cst = np.full_like(f0, 1.75)
             adv.step(cst, vi, ri)
